@@ -202,3 +202,7 @@ TEXTS["C14"] = {
   "technique": "Coq proofs over interleaving models (invariant over all schedules; interleaving = sequential history; corollaries of C01/C02/C12/C13) + race-detector stress with delay injection, watchdog, property-text monitors "
                "on concurrent runs + Coq-decided acyclicity of a lock-order graph extracted from the source on every run + mutant sensitivity",
 }
+
+TEXTS["C16"]["text"] += (" The cacher laws are proved (Props/C16b.v, 34 theorems) for the models of every cacher the factory builds - sized LRU, plain LRU, the lruCache wrapper, FIFO sharded - "
+                         "so all C16 theorems hold for the unit over each of them, for all capacities/parameters, histories and failure oracles; the cache inside the unit is shown to be a "
+                         "reachable state of the C15/C20 models, so their invariants hold for it.")
